@@ -722,7 +722,13 @@ class Interp(object):
         return e.exc_name in names or any(p in names for p in hier.get(e.exc_name, []))
 
     def st_With(self, st, env):
-        raise Undecidable('with statement')
+        for item in st.items:
+            cm = self.eval(item.context_expr, env)
+            if not (isinstance(cm, Opaque) and cm.what in ('numpy.errstate', 'warnings.catch_warnings')):
+                raise Undecidable('with statement over %r' % (cm,))
+            if item.optional_vars is not None:
+                self.assign(item.optional_vars, cm, env)
+        self.exec_block(st.body, env)
 
     def st_Delete(self, st, env):
         for t in st.targets:
@@ -800,6 +806,13 @@ class Interp(object):
             if s is not None:
                 self.call(Closure(s, s.node, None, s.module, o, o.cls), [v], {})
                 return
+            if o.cls.class_attrs and name in o.cls.class_attrs:
+                dp = self._dyn_props(o.cls)
+                if name in dp:
+                    if dp[name].fset is None:
+                        raise PyRaise('AttributeError', "can't set attribute")
+                    self.call(dp[name].fset, [o, v], {})
+                    return
             self.events.append(('setattr', o, name))
             o.attrs[name] = v
             return
@@ -811,6 +824,23 @@ class Interp(object):
             o.info.__dict__.setdefault('runtime_attrs', {})[name] = v
             return
         raise Undecidable('attribute store on %r' % (o,))
+
+    def _dyn_props(self, cls):
+        """class attributes that evaluate to property objects built at run time (`start = _control_point('start')`)"""
+        dp = cls.__dict__.get('dyn_props')
+        if dp is None:
+            dp = {}
+            cls.__dict__['dyn_props'] = dp          # set first: evaluation below may look attributes up
+            from .values import PropertyObj
+            for nm, expr in cls.class_attrs.items():
+                if isinstance(expr, ast.Call):
+                    try:
+                        v = self.eval(expr, self._class_env(cls))
+                    except (Undecidable, PyRaise):
+                        continue
+                    if isinstance(v, PropertyObj):
+                        dp[nm] = v
+        return dp
 
     def _class_env(self, cls):
         """scope in which a class-body expression is evaluated: the methods defined so far are plain functions there
@@ -1125,9 +1155,17 @@ class Interp(object):
                 return 0
             raise PyRaise('AttributeError', name)
         if isinstance(o, Obj):
+            cls = o.cls
+            if cls.class_attrs and name in cls.class_attrs and not name.startswith('__'):
+                dp = self._dyn_props(cls)
+                if name in dp:
+                    if dp[name].fget is None:
+                        raise PyRaise('AttributeError', 'unreadable attribute')
+                    return self.call(dp[name].fget, [o], {})
             if name in o.attrs:
                 return o.attrs[name]
-            cls = o.cls
+            if name == '__dict__':
+                return o.attrs                       # the live instance dictionary
             if name in cls.getters:
                 g = cls.getters[name]
                 return self.call(Closure(g, g.node, None, g.module, o, cls), [], {})
@@ -1158,6 +1196,8 @@ class Interp(object):
                 return BoundBuiltin(o.attrs['__base_list__'], name)
             if name == '__class__':
                 return ClassRef(cls)
+            if name.startswith('__') and name.endswith('__'):
+                raise Undecidable('special attribute %s of an object' % name)      # every object has these: a limit of the model
             raise PyRaise('AttributeError', '%s.%s' % (cls.name, name))
         if isinstance(o, Opaque):
             if name in o.attrs:
@@ -1181,6 +1221,19 @@ class Interp(object):
                 return rv
             if name == '__name__':
                 return o.info.name
+            if name == '__dict__':
+                d = {}
+                for nm, m in getattr(o.info, 'own_methods', o.info.methods).items():
+                    d[nm] = Closure(m, m.node, None, m.module, None, o.info)
+                for nm, expr in o.info.class_attrs.items():
+                    if nm in self._dyn_props(o.info):
+                        d[nm] = self._dyn_props(o.info)[nm]
+                    else:
+                        try:
+                            d[nm] = self.eval(expr, self._class_env(o.info))
+                        except (Undecidable, PyRaise):
+                            pass
+                return d
             raise PyRaise('AttributeError', name)
         if isinstance(o, (list, tuple, dict, str, set, StrT, PolyT, Arr, Iter)):
             return bm.container_attr(self, o, name)
